@@ -30,6 +30,9 @@ def _spin_contraction(spin, names=("ga", "gb")):
     return e.substitute_with_generic()
 
 
+PRE = {}
+
+
 def prior_calls(n):
     """perturb the global registry counters and fill caches in random order"""
     gs = adcgen.GroundState(adcgen.Operators())
@@ -80,10 +83,18 @@ def requests():
     out["block_ph_ph_1"] = (m.isr_matrix_block(1, "ph,ph", "ia,jb"), "iajb")
     # explicitly requested NUMBERED target names: they live in the same name
     # space as the generic indices handed out by the registry
-    out["amplitude_2_ph_k3c3"] = (gs.amplitude(2, "ph", "k3c3"), "k3c3")
-    out["amplitude_2_ph_j3b3"] = (gs.amplitude(2, "ph", "j3b3"), "j3b3")
-    out["amplitude_1_pphh_num"] = (gs.amplitude(1, "pphh", "i4j5a4b6"),
-                                   "i4j5a4b6")
+    from adcgen.indices import split_idx_string, index_space
+
+    def numbered(key, order, space, idxstr):
+        # which of the explicit names existed in the registry before the
+        # request (created explicitly or handed out as generic index)?
+        reg_ = Indices()
+        PRE[key] = [nm for nm in split_idx_string(idxstr)
+                    if nm in reg_._symbols[index_space(nm)][""]]
+        out[key] = (gs.amplitude(order, space, idxstr), idxstr)
+    numbered("amplitude_2_ph_k3c3", 2, "ph", "k3c3")
+    numbered("amplitude_2_ph_j3b3", 2, "ph", "j3b3")
+    numbered("amplitude_1_pphh_num", 1, "pphh", "i4j5a4b6")
     if spec.get("thorough"):
         out["block_ph_ph_2"] = (m.isr_matrix_block(2, "ph,ph", "ia,jb"),
                                 "iajb")
@@ -126,7 +137,7 @@ def requests():
 
 prior_calls(spec["n_prior"])
 res, share = requests()
-payload = {"share": share, "results": {}}
+payload = {"share": share, "results": {}, "pre_existing": PRE}
 rename_back = spec.get("rename_back") or {}
 for name, (expr, tg) in res.items():
     tgs = get_symbols(tg)
